@@ -331,3 +331,67 @@ func staticSaveToBytesSteps(g *Gen, o CheckOpts) []StaticResult {
 		Desc:   "Save and ToBytes call the same serialize* steps in the same order before writing the parts",
 		Detail: fmt.Sprintf("Save:    %v\nToBytes: %v", a, b)}}
 }
+
+
+var constNonNilCache = map[string]bool{}
+var globalUsesCache map[string]*GlobalUse
+
+// constNonNilGlobal: the package-level variable pkg.name is never assigned outside init, and init assigns
+// it the result of a constructor that cannot return nil (errors.New, fmt.Errorf, regexp.MustCompile,
+// a composite literal, make).
+func (g *Gen) constNonNilGlobal(name string) bool {
+	if v, ok := constNonNilCache[name]; ok {
+		return v
+	}
+	res := false
+	defer func() { constNonNilCache[name] = res }()
+	if globalUsesCache == nil {
+		globalUsesCache = g.GlobalUses()
+	}
+	if u, ok := globalUsesCache[name]; ok && len(u.Stores) > 0 {
+		return false
+	}
+	i := strings.Index(name, ".")
+	sp := g.SSAPkgs[name[:i]]
+	if sp == nil {
+		return false
+	}
+	gl, ok := sp.Members[name[i+1:]].(*ssa.Global)
+	if !ok {
+		return false
+	}
+	initFn := sp.Func("init")
+	if initFn == nil {
+		return false
+	}
+	nonNil := func(v ssa.Value) bool {
+		if mi, ok := v.(*ssa.MakeInterface); ok {
+			v = mi.X
+		}
+		switch x := v.(type) {
+		case *ssa.Alloc, *ssa.MakeMap, *ssa.MakeSlice:
+			return true
+		case *ssa.Call:
+			if sc := x.Common().StaticCallee(); sc != nil {
+				switch sc.String() {
+				case "errors.New", "fmt.Errorf", "regexp.MustCompile":
+					return true
+				}
+			}
+		}
+		return false
+	}
+	n := 0
+	for _, b := range initFn.Blocks {
+		for _, in := range b.Instrs {
+			if st, ok := in.(*ssa.Store); ok && st.Addr == ssa.Value(gl) {
+				n++
+				if !nonNil(st.Val) {
+					return false
+				}
+			}
+		}
+	}
+	res = n == 1
+	return res
+}
